@@ -2165,7 +2165,9 @@ impl<T: Storage> Raft<T> {
                     return Ok(());
                 }
 
-                if self.prs().is_singleton() {
+                // The only voter must be this node: a leader that has been removed from
+                // the configuration can not answer on its own.
+                if self.prs().is_singleton() && self.promotable {
                     let read_index = self.raft_log.committed;
                     if let Some(m) = self.handle_ready_read_index(m, read_index) {
                         self.r.send(m, &mut self.msgs);
